@@ -195,9 +195,21 @@ CHECKS = {
             "documents with non-string or merge keys, anchors, aliases, tags or several documents are left unjudged (outside the subset the "
             "property names). Tuple key order is not compared.",
             "DESIGN.md section 4 C15"),
+    "C17": ("exploration",
+            "exhaustive enumeration of single-fault programs (fault kind x nesting x statement index x inserted statements) through "
+            "eval_string and build(path) with a span oracle",
+            "11 fault kinds (3 syntax variants, unknown name, type mismatch, missing field, missing index, unhandled select, failed cast, fail, "
+            "wrong arity) x 6 nesting positions (top level, tuple field, list element, call argument, select arm, function body called from a "
+            "later statement) x every statement index of a base program of multi-line statements x 7 variants (base; 1 one-line, 1 "
+            "three-line, 3 one-line unrelated statements inserted before and, separately, after). The first line/column of the diagnostic "
+            "must lie inside the faulty statement's span, a VIA line inside the calling statement for function-body faults found at "
+            "evaluation, and the position must move by exactly the lines inserted before and not at all for lines inserted after.",
+            "The generator computes the spans itself. Only lines are compared against the span. A fault the static checker finds inside a "
+            "function definition needs no VIA entry. Errors that carry no position by construction (I/O, regex) are not among the kinds.",
+            "DESIGN.md section 4 C17"),
 }
 
-CLAIMED = ["C01", "C02", "C03", "C04", "C05", "C06", "C07", "C08", "C09", "C10", "C11", "C12", "C13", "C14", "C15", "C16", "C18"]
+CLAIMED = ["C01", "C02", "C03", "C04", "C05", "C06", "C07", "C08", "C09", "C10", "C11", "C12", "C13", "C14", "C15", "C16", "C17", "C18"]
 
 NOT_YET = "check not built yet in this round; design in DESIGN.md section 4 (bounded-exhaustive enumeration applies)"
 
